@@ -1349,6 +1349,9 @@ def gen_model(rng):
     names = [r[1] for r in available_models().to_list()] if rng.random() < 0.5 else MODELS_QUICK
     name = rng.choice(names)
     kw = {}
+    if rng.random() < 0.15:
+        # the "solved" nucleotide models: another CLASS (evolve/solved_models.PredefinedNucleotide) reached through a keyword
+        return dict(family="model", name=rng.choice(["F81", "HKY85", "TN93"]), kw={"rate_matrix_required": False}, ops=[], hclass="solved")
     return dict(family="model", name=name, kw=kw, ops=[], hclass="named")
 
 
